@@ -136,7 +136,7 @@ func VerifC13BeforeJoin() {
 	s := c13Start()
 	k := 1
 	if vrt_Tier() > 0 {
-		k = 2
+		k = 3 // this scenario is small enough for three deviations
 	}
 	kind := vrt_Choose("kind", 3)
 	vrt_Quiesce() // deviations start from a quiescent system (reader, writer, registry all waiting)
